@@ -57,6 +57,19 @@ type SeedRecSlice struct {
 	Kids []SeedRecSlice
 }
 
+// re-entrant container types: folding an element folds the same map type again, and fields follow the map
+type SeedNode struct {
+	Kids map[string]SeedNode `struct:"kids"`
+	Name string              `struct:"name"`
+	W    int                 `struct:"w"`
+}
+type SeedNodeI struct {
+	M     map[string]interface{} `struct:"m"`
+	After string                 `struct:"after"`
+	L     []SeedNodeI            `struct:"l"`
+	Tail  int                    `struct:"tail"`
+}
+
 type seedEmbedded struct {
 	E int
 }
@@ -160,6 +173,13 @@ func seeds() []seed {
 		{"SeedZeroV", []interface{}{SeedZeroV{}, SeedZeroV{1}}, nil},
 		{"SeedRec", []interface{}{SeedRec{}, *rec(3), rec(2)}, nil},
 		{"SeedRecSlice", []interface{}{SeedRecSlice{}, SeedRecSlice{Kids: []SeedRecSlice{{}, {Kids: []SeedRecSlice{{}}}}}}, nil},
+		{"SeedNode", []interface{}{
+			SeedNode{Name: "a", W: 1, Kids: map[string]SeedNode{"b": {Name: "b", W: 2, Kids: map[string]SeedNode{"c": {Name: "c", W: 3, Kids: map[string]SeedNode{"d": {Name: "d", W: 4}}}}}}},
+			map[string]SeedNode{"x": {Name: "x", W: 9, Kids: map[string]SeedNode{"y": {Name: "y", W: 8}}}},
+			SeedNodeI{After: "a1", Tail: 1, M: map[string]interface{}{"k": SeedNodeI{After: "a2", Tail: 2, M: map[string]interface{}{"k": SeedNodeI{After: "a3", Tail: 3}}}}},
+			SeedNodeI{After: "o", Tail: 1, L: []SeedNodeI{{After: "i1", Tail: 2, L: []SeedNodeI{{After: "i2", Tail: 3}}}, {After: "i3", Tail: 4}}},
+			[]interface{}{map[string]interface{}{"p": []interface{}{map[string]interface{}{"q": 1}, "after-inner"}}, "after-outer"},
+		}, nil},
 		{"SeedWithUnexported", []interface{}{SeedWithUnexported{Pub: 1, priv: 2, seedEmbedded: seedEmbedded{3}, Named: 4}}, nil},
 		{"SeedHolder", []interface{}{SeedHolder{}, SeedHolder{FV: SeedFolderV{1}, FP: SeedFolderP{2}, PFV: &SeedFolderV{3}, ZV: SeedZeroV{1}, ZP: SeedZeroP{1}, PZV: &SeedZeroV{0}, I: SeedZeroV{0}},
 			SeedHolder{PZV: &SeedZeroV{5}, I: &SeedZeroP{0}}, SeedHolder{I: SeedZeroV{2}}, SeedHolder{I: &i3}, SeedHolder{I: ""}, SeedHolder{I: []int{}}}, nil},
